@@ -4,7 +4,9 @@ Correspondence: four streams of filters (grammar-derived sentences with every lh
 literal kind, token-level mutations, bounded-exhaustive token sequences, random code points) are lexed
 by the real lexer and by the extracted model lexer (tokens with positions, error counts), parsed by
 ast.Parse under recover() with ten typings of the identifier x and, when they parse, evaluated over a
-filled and an all-null/empty dataset.  Every panic, every accepted input with unrecognised characters and
+filled and an all-null/empty dataset; the sentence matrix with x renamed to every kind of symbol of real boltz stores
+is parsed against the store and evaluated through the Store query API over bolt files in which fields, set / link /
+prefix / map buckets, entities and stores are filled, nil, empty or were never written (c10_store.go).  Every panic, every accepted input with unrecognised characters and
 every accepted non-sentence (skeleton alphabet, decided by the C12 parser model) violates C10."""
 import json
 import os
@@ -13,6 +15,23 @@ import vlib
 
 PID = "C10"
 FILES = ["theories/Properties/C10.v", "theories/Examples/C10Examples.v"]
+
+
+# the datasets of the store-backed streams (harness c10_store.go): <root> or only:<the one entity of the main store that is needed>
+STORE_DATASETS = {
+    "all": "the bolt file with every entity profile",
+    "orphan": "a bolt file in which the stores that the symbols link to were never created",
+    "hollow": "a bolt file whose store buckets exist and hold no entity",
+    "void": "a bolt file in which not even the root bucket of the stores exists",
+    "only:m1-full": "a store whose only entity has every field, set, link and map entry written",
+    "only:m2-full": "a store whose only entity has every field, set, link and map entry written (second value profile)",
+    "only:m3-absent": "a store whose only entity was stored WITHOUT any field: no scalar, no list bucket of a set, no link bucket, no prefix bucket, no map bucket was ever written",
+    "only:m4-nil": "a store whose only entity has every scalar written nil and every set / link / map written empty",
+    "only:m5-scalars": "a store whose only entity has its scalars written and no set / link / map / prefix bucket ever written (its fk names an entity without fields)",
+    "only:m6-sets": "a store whose only entity has its sets and links written (also to entities that do not exist) and no scalar ever written",
+    "only:m7-dangling": "a store whose only entity refers (fk, fk set) to entities that do not exist",
+    "only:m8-mistyped": "a store whose only entity holds, in every field, a well-formed value of another type than the symbol declares",
+}
 
 
 def runes(s):
@@ -27,7 +46,8 @@ def main(argv):
         "Lang/Lexer.v (ANTLR lexer loop with drop-and-continue recovery), Lang/Glue.v (zitiql.parse / ast.Parse listener wiring)",
         "Section variable `parser` (Glue.v): the generated ANTLR parser + tree walk is an arbitrary total function in the theorems",
         "extraction (ExtrOcamlBasic only) + extraction/c10_driver.ml + drv_common.ml",
-        "Go harness cmd/storageharness/c10.go (generators, in-memory ast.Symbols with null fields / empty sets / sub-query entities) and this comparison",
+        "Go harness cmd/storageharness/c10.go (generators, in-memory ast.Symbols with null fields / empty sets / sub-query entities), "
+        "c10_store.go (real boltz stores over a bolt file: entity profiles full / never written / nil / empty / dangling / mistyped, roots all / orphan / hollow / void) and this comparison",
         "ANTLR runtime (ATN interpreter termination, adaptive prediction, pooled lexer/parser instances): exercised by the streams, not modelled - C10 is partial by nature here",
         "typer / evaluator totality: Properties/C10Typer.v (separate model, built by the C01 owner)",
     ]
@@ -85,6 +105,17 @@ def main(argv):
             if v.startswith("P:"):
                 c.violation("C10:panic-parse:" + v[2:], "ast.Parse(%r) panics in %s when x is typed %s" % (text, v[2:], ty), dict(rep, typing=ty))
                 flagged = True
+            elif v.startswith("V:") and ty == "store":
+                # store-backed evaluation: V:<site>@<api>@<smallest dataset that still panics>
+                site, api, where = (v[2:].split("@") + ["-", "-"])[:3]
+                c.violation("C10:panic-eval:" + site,
+                            "filter %r parses against the bolt-backed store and Store.%s panics in %s when it is evaluated over %s"
+                            % (text, api, site, STORE_DATASETS.get(where, where)),
+                            dict(rep, typing=ty, api=api, dataset=where, dataset_meaning=STORE_DATASETS.get(where, where), site=site,
+                                 how_to_reproduce="define the stores of harness/cmd/storageharness/c10_store.go c10sBuild (main store `mains`: scalars s i f b a c d y name xs xi xf xb xd, "
+                                 "xp below the bucket path ext/deep, fk xk -> subs, sets ss is xss xis xfs xbs xds, fk sets xks -> subs and xms -> mains, map tags), write the entity profile named by "
+                                 "`dataset` (c10sWriteMain), then call Store.%s(tx, %r) inside db.View" % (api, text)))
+                flagged = True
             elif v.startswith("V:"):
                 c.violation("C10:panic-eval:" + v[2:], "filter %r parses (x typed %s) and panics in %s when evaluated (null fields / empty sets)" % (text, ty, v[2:]),
                             dict(rep, typing=ty))
@@ -139,6 +170,11 @@ def main(argv):
                      "+ boolean forms, sub-queries, sort/skip/limit with odd numbers, hand-written malformed filters, each under 10 typings of x (string int float bool datetime any "
                      "set-string set-int set-datetime unknown); mut = token-level mutations of them; seqA = ALL sequences of <= %d pieces over {a and or not ( ) blank}, "
                      "seqB = all of <= %d over {x blank = 1 \"s\" in [ ] null between and not}; rand = random code points / lexer fragments / raw bytes. "
+                     "bolt* = the sentence matrix with x renamed to every kind of symbol of real boltz stores (scalars of every type, prefixed field, fk, string/int/float/bool/datetime sets, fk sets, "
+                     "dotted chains through fk and fk-set symbols, map elements, unknown names), as top-level filter, as inner filter of sub-queries over the linked stores, wrapped in not/and/or/sort clauses, "
+                     "and token-level mutations of those; typing `store`: parsed against the real store and evaluated through QueryIds / QueryIdsC / IterateIds(+Seek) / IterateValidIds / QueryWithCursorC "
+                     "(row-id list with ids of missing entities, related-entity cursors) over a bolt file with the entity profiles full / NEVER WRITTEN / nil+empty / scalars only / sets only / dangling references / mistyped "
+                     "and over the roots all / orphan (linked stores never created) / hollow (no entity) / void (no bucket); a panic is minimised to the single entity profile that is needed. "
                      "evaluations = (filter, typing) verdicts; each parsed filter is evaluated on a filled and an all-null/empty dataset; non-trivial = produces a token or a lexer error; distinct by case text"
                      % ((6, 5) if c.thorough else (5, 4)))
     idx = sorted(set((0, min(7, len(cases) - 1), len(cases) // 2, len(cases) - 1)))
